@@ -214,9 +214,20 @@ def gen_lap(rng, N):
             kind = rng.choice(["set", "update", "update", "get"])
             v = rref(rng, n, 0.1)
             sops.append([kind, v] + ([rng.randint(-mag, mag)] if kind != "get" else []))
+        s2 = [rng.randint(-mag, mag) for _ in range(n)]
+        if rng.random() < 0.25:
+            # the second script differs from the first only by values with equal CPython hashes
+            # (hash(-1) == hash(-2), hash(k) == k mod 2^61-1): one calculator object, two applies
+            P = 2 ** 61 - 1
+            cur = [rng.choice([-1, -2, -1, 0, 1, 3, P, -P - 1]) for _ in range(n)]
+            init = [[i, cur[i]] for i in range(n)]
+            sops = []
+            s2 = [(-1 if c == -1 else 1 if c == -2 else rng.choice([0, 0, P, -P])) for c in cur]
+            if not any(s2):
+                s2[rng.randrange(n)] = P
         s = dict(g)
         s.update(op="lap", deg=[rng.randint(-mag, mag) for _ in range(n)], init=init, sops=sops,
-                 s2=[rng.randint(-mag, mag) for _ in range(n)], q=rng.randrange(n), _mag=mag)
+                 s2=s2, q=rng.randrange(n), _mag=mag)
         out.append(s)
     return out
 
